@@ -207,15 +207,6 @@ impl Chain {
             });
         }
 
-        // Reject a timestamp that verify_chain would refuse
-        if let Some(prev) = self.get_block_at(current_height)? {
-            if block.header.timestamp < prev.header.timestamp {
-                return Err(ChainError::ValidationFailed(
-                    "timestamp before previous block".to_string(),
-                ));
-            }
-        }
-
         // Compute tx_root if not set
         if block.header.tx_root == [0u8; 32] && !block.transactions.is_empty() {
             block.header.tx_root = block.compute_tx_root();
